@@ -404,6 +404,11 @@ class Runner:
         vols = None
         comps = [x for x in subtree(o) if hasattr(x, "getVolume") and type(x).__name__ not in ("Reactor",)][:6]
         try:
+            # reference taken from fresh caches (a cache left stale by an *earlier* scope that kept a
+            # parameter such as height is not this scope's doing)
+            for x in comps:
+                if hasattr(x, "clearCache"):
+                    x.clearCache()
             vols = [float(x.getVolume()) for x in comps]
         except Exception:  # noqa: BLE001
             vols = None
